@@ -36,6 +36,7 @@ E_OPEN == "OpenError"
 E_KDF  == "KdfOutputTooLong"
 E_ENC  == "EncapError"
 E_DEC  == "DecapError"
+E_LEN  == "IncorrectInputLength"
 
 (***************************************************************************)
 (* ContextS.Seal, in-place detached form.  touched = FALSE means the       *)
